@@ -29,7 +29,7 @@ ASSUMPTIONS = ["latency bound = SEND_COLLECTION_TIMEOUT plus 4 clock resolutions
 FLOORS = {"quick": {"scenarios": 5000, "entries_queued": 150000, "entries_matched": 150000, "datagrams": 40000,
                     "request_at_close_before": 2000, "request_at_close_after": 2000, "request_close_adjacent": 3500,
                     "bursts_over_15": 2000, "zero_timeout_scenarios": 1000, "requests_during_stop": 500, "real_traffic_scenarios": 800,
-                    "mesh_scenarios": 100, "mesh_queue_entries_checked": 5000}}
+                    "mesh_scenarios": 100, "mesh_queue_entries_checked": 3000}}
 # system-level shards: the mesh workload of pv/mesh.py under this property's boundary monitors (reports of other monitors are dropped)
 MESH = {"want": ("queue",), "claim": ("mesh:queued-", "mesh:entry-on-the-wire"),
         "quick": (2, 60), "thorough": (16, 1500)}
